@@ -81,8 +81,7 @@ func c17RingBytes(c *c17Case, ring string) []byte {
 // entities of a keyring in file order, as the model's ring_entities: key number (0 = A, 1 = B)
 // and identity names
 func c17RingEntities(ring string) (string, bool) {
-	a := fmt.Sprintf("(0, [%s])", c17Str(c17Ident("A")))
-	b := fmt.Sprintf("(1, [%s])", c17Str(c17Ident("B")))
+	a, b := "(0, [ida])", "(1, [idb])" // ida / idb: the identity names, let-bound around the case term
 	switch ring {
 	case "empty":
 		return "[]", true
